@@ -239,6 +239,21 @@ def classify_atoms(sx: SymX, f: Formula, path: Term | None, name_atoms: frozense
     return rename_atoms(f, mapping), roles, improper
 
 
+def _exclusion_tests_elsewhere(info: ScanInfo, path: Term | None) -> list[Term]:
+    """Arguments of exclusion tests that are neither the given path nor a part of it (tests made on other values, e.g. on the
+    entries of a directory before they are handed on)."""
+    target = strip_abs(loc(path)) if path is not None else None
+    out = []
+    for e in info.trace.calls(EXCLUSION_PREDICATE):
+        a = e.arg(0)
+        if a is None:
+            continue
+        if target is not None and (strip_abs(loc(a)) == target or _part_of(loc(a), target)):
+            continue
+        out.append(a)
+    return out
+
+
 def _part_of(l: Term, target: Term | None) -> bool:
     """The location `l` is derived from `target` by taking its name / stem / parent / a relative part."""
     if target is None:
@@ -316,6 +331,10 @@ def run_registration(repo: Repo, res: Result, rule: str) -> int:
         unknown = sorted(k for k, r in roles.items() if r == "other-path")
         if not ok and unknown and not improper:
             res.undecide(rule, key + f" [{kind} registered]", f"cannot interpret the test `{unknown[0][:120]}` on the registered path", wh)
+            continue
+        elsewhere = _exclusion_tests_elsewhere(info, reg.path)
+        if not ok and not improper and elsewhere and not implies(f, f_not(atom("EXCL"))):
+            res.undecide(rule, key + f" [{kind} registered]", f"the exclusion predicate is applied to `{show_loc(loc(elsewhere[0]))}` (e.g. when entries are selected), not to the registered path at the point of registration: cannot connect the two", wh)
             continue
         if ok:
             detail = f"a {kind} is registered only if it is not excluded" + (" and is a .py file" if kind == "file" else "")
